@@ -339,7 +339,11 @@ func (fv *FV) storeCell(e *Env, comp string, t types.Type, sortHint string, v Va
 	}
 	if k == kSlice {
 		if v.K != kSlice {
-			v = fv.freshValue(t, "sl")
+			if v.K == kScalar && v.T.S == tNull.S {
+				v = Value{K: kSlice, Type: t, T: tNull, Off: intLit(0), Len: intLit(0), Cap: intLit(0)} // x = nil
+			} else {
+				v = fv.freshValue(t, "sl")
+			}
 		}
 		fv.storeComp(e, comp+"#arr", sRef, v.T, idx...)
 		fv.storeComp(e, comp+"#off", sInt, v.Off, idx...)
